@@ -6,6 +6,7 @@ in document order for "aliased repeats", and re-resolution of every reported
 path through Processor.get_nodes in the notation it was printed in.
 """
 import os
+import sys
 from types import SimpleNamespace
 
 from vf.core import yp
@@ -35,7 +36,7 @@ REACH = [("yamlpath/commands/yaml_paths.py", "search_for_paths,yield_children", 
          ("yamlpath/commands/yaml_paths.py", "process_yaml_file,print_results,get_search_term", "yaml_paths CLI glue"),
          ("yamlpath/common/searches.py", "search_anchor", "Searches.search_anchor")]
 SIZES = {"quick": dict(lib=200000, cli=800), "thorough": dict(lib=1200000, cli=3000)}
-REQUIRED_COUNTERS = ["lib_cases", "cli_cases", "resolved_paths", "anchor_docs", "expand_cases"]
+REQUIRED_COUNTERS = ["lib_cases", "cli_cases", "resolved_paths", "anchor_docs", "expand_cases", "cli_escaped_terms", "multi_expression_subprocess_cases"]
 OPS = {"=": PathSearchMethods.EQUALS, "^": PathSearchMethods.STARTS_WITH, "$": PathSearchMethods.ENDS_WITH,
        "%": PathSearchMethods.CONTAINS, ">": PathSearchMethods.GREATER_THAN, "<": PathSearchMethods.LESS_THAN,
        ">=": PathSearchMethods.GREATER_THAN_OR_EQUAL, "<=": PathSearchMethods.LESS_THAN_OR_EQUAL,
@@ -327,7 +328,13 @@ def run_case(ctx, text, data, op, term, inv, mode, alias, expand, sep, via="libr
         f = os.path.join(workdir, "d.yaml")
         with open(f, "w") as fh:
             fh.write(text + "\n")
-        argv = ["-S", "-X", "-F", "-t", sep, "-s", case["expression"]]
+        # on the command line the term is written with YAML Path escapes (the only unquoted way to carry a blank,
+        # a bracket or a quote mark): =x\ y
+        cli_expr = case["expression"] if op == "=~" else "%s%s%s" % ("!" if inv else "", op, gp.render_term(op, term))
+        case["cli_expression"] = cli_expr
+        if cli_expr != case["expression"]:
+            ctx.counters["cli_escaped_terms"] = ctx.counters.get("cli_escaped_terms", 0) + 1
+        argv = ["-S", "-X", "-F", "-t", sep, "-s", cli_expr]
         argv += {"values": [], "keys": ["-k"], "keysonly": ["-K"]}[mode]
         argv += ["-" + alias]
         if expand:
@@ -369,9 +376,49 @@ SEEDS = [("{a: &A1 x, b: *A1, c: [*A1, y, x]}", "=", "x"), ("{a: {b: 1, c: ab}, 
          ("{s: !!set {a, b, ab}, t: a}", "=", "a"), ("[1, [2, 1], {k: 1}]", "=", "1")]
 
 
+def multi_expression_case(ctx, rng, workdir):
+    """Several searches in ONE real yaml-paths process (two -s expressions): the printed paths are those of the two
+    single-expression runs, in that order - every search starts from scratch (anchor bookkeeping included)."""
+    import subprocess
+    text, _ = gd.gen_doc(rng, "A")
+    try:
+        data = yp.load(text)
+    except yp.LoadError:
+        return
+    if not isinstance(data, (dict, list)) or yp.is_set(data) or has_set_in_list(data) or "&" not in text:
+        return
+    vocab = gp.doc_vocab(data)
+    terms = [t for t in vocab["terms"] if t.isalnum()][:6]
+    if len(terms) < 2:
+        return
+    e1, e2 = ["=" + t for t in rng.sample(terms, 2)]
+    os.makedirs(workdir, exist_ok=True)
+    f = os.path.join(workdir, "m.yaml")
+    with open(f, "w") as fh:
+        fh.write(text + "\n")
+    exe = os.path.join(os.path.dirname(sys.executable), "yaml-paths")
+    env = dict(os.environ, PYTHONPATH=yp.REPO_ROOT + os.pathsep + os.environ.get("PYTHONPATH", ""))
+
+    def run(exprs):
+        argv = [exe, "-S", "-X", "-F"] + [a for e in exprs for a in ("-s", e)] + [f]
+        p = subprocess.run(argv, capture_output=True, text=True, timeout=60, env=env, stdin=subprocess.DEVNULL)
+        return p.returncode, [ln for ln in p.stdout.splitlines() if ln.strip()]
+    ctx.evaluations += 1
+    ctx.counters["multi_expression_subprocess_cases"] = ctx.counters.get("multi_expression_subprocess_cases", 0) + 1
+    (c12, o12), (c1, o1), (c2, o2) = run([e1, e2]), run([e1]), run([e2])
+    if o1 and o2:
+        ctx.mark_nontrivial([text, e1, e2])
+    if o12 != o1 + [x for x in o2 if x not in o1]:        # (the tool prints each distinct path once)
+        ctx.violation("multi-expression-run-differs-from-single-runs/yaml-paths", {
+            "case": {"doc": text, "expressions": [e1, e2]},
+            "summary": "both: %r ; %s alone: %r ; %s alone: %r" % (o12[:8], e1, o1[:6], e2, o2[:6])})
+
+
 def run_shard(ctx):
     rng = ctx.rng
     sz = SIZES[ctx.tier]
+    for _ in range(3 if ctx.tier == "quick" else 40):
+        multi_expression_case(ctx, rng, os.path.join(os.environ.get("VF_WORKDIR", "/dev/shm"), "c07m-%d" % ctx.shard))
     workdir = os.path.join(os.environ.get("VF_WORKDIR", "/dev/shm"), "c07-%d" % ctx.shard)
     if ctx.shard == 0:
         for d, op, t in SEEDS:
@@ -406,7 +453,7 @@ def run_shard(ctx):
         for _ in range(6):
             op = rng.choice(list(OPS))
             term = gen_term(rng, vocab, op)
-            if any(c in term for c in "[]'\"\\ ") or not term:
+            if any(c in term for c in "[]'\"\\") or not term or term != term.strip():
                 term = "a"
             inv = rng.random() < 0.25
             mode = rng.choice(["values", "values", "keys", "keysonly"])
@@ -414,7 +461,7 @@ def run_shard(ctx):
             expand = rng.random() < 0.3
             sep = rng.choice([".", "/"])
             run_case(ctx, text, data, op, term, inv, mode, alias, expand, sep)
-            if ncli < wcli and rng.random() < 0.05 and not any(c in term for c in "=^$%!<>~*&.,()") :
+            if ncli < wcli and (rng.random() < 0.05 or (" " in term and rng.random() < 0.5)) and not any(c in term for c in "=^$%!<>~*&.,()"):
                 run_case(ctx, text, data, op, term, inv, mode, alias, expand, sep, via="yaml-paths", workdir=workdir)
                 ncli += 1
         n += 1
